@@ -186,8 +186,168 @@ func runC02(t *testing.T, x c02Scn, verbose bool) vfCase {
 	return c
 }
 
+
+// ---- a foreign receiver: other extension sets, acknowledgement habits and outages ----
+//
+// Two pion endpoints always negotiate FORWARD-TSN and I-DATA. A puppet receiver that lists
+// any subset of the extensions (or none), acknowledges honestly (every packet, every other
+// packet, or only after 200 ms) and is deaf for a generated stretch right when data is in
+// flight: once it listens again everything written must be delivered and the sender must
+// report zero buffered bytes within a few maximum retransmission timeouts.
+
+type c02Foreign struct {
+	Opt vfOptMix `json:"opt,omitempty"` // options that must not matter here
+	IL      bool     `json:"il"`
+	TSN     uint32   `json:"tsn"`
+	Ext     []int    `json:"ext"`
+	NoExt   bool     `json:"noext,omitempty"`
+	AckMode int      `json:"ackmode"` // 0 every packet, 1 every second packet (and after 200 ms), 2 only after 200 ms
+	Writes  [][3]int `json:"writes"`  // (at ms, sid, size)
+	Deaf    [][2]int `json:"deaf"`    // (from ms, duration ms): everything arriving is lost, nothing is sent
+	RTOMax  int      `json:"rtomax"`
+}
+
+func genC02Foreign(rt *rapid.T) c02Foreign {
+	x := c02Foreign{IL: rapid.Bool().Draw(rt, "il"), TSN: genTSN(rt, "tsn", 8448), AckMode: rapid.IntRange(0, 2).Draw(rt, "ackmode"), RTOMax: rapid.SampledFrom([]int{1000, 2000, 4000}).Draw(rt, "rtomax")}
+	for _, e := range []int{wtRECONFIG, wtFWD, wtIDATA, wtIFWD} {
+		if rapid.IntRange(0, 2).Draw(rt, "ext") != 0 {
+			x.Ext = append(x.Ext, e)
+		}
+	}
+	x.NoExt = rapid.IntRange(0, 5).Draw(rt, "noext") == 0
+	nw := rapid.IntRange(1, 8).Draw(rt, "nw")
+	for i := 0; i < nw; i++ {
+		x.Writes = append(x.Writes, [3]int{rapid.SampledFrom([]int{0, 0, 5, 400, 1500}).Draw(rt, "wat"), rapid.IntRange(0, 2).Draw(rt, "sid"), rapid.SampledFrom([]int{1, 21, 1000, 1300, 5000, 20000}).Draw(rt, "size")})
+	}
+	sort.SliceStable(x.Writes, func(i, j int) bool { return x.Writes[i][0] < x.Writes[j][0] })
+	x.Opt = genOptMix(rt, "opt")
+	nd := rapid.IntRange(0, 2).Draw(rt, "ndeaf")
+	for i := 0; i < nd; i++ {
+		x.Deaf = append(x.Deaf, [2]int{rapid.SampledFrom([]int{0, 1, 8, 11, 395, 1490}).Draw(rt, "dfrom"), rapid.SampledFrom([]int{30, 300, 1100, 1500, 3500, 9000}).Draw(rt, "dlen")})
+	}
+	return x
+}
+
+func runC02Foreign(t *testing.T, x c02Foreign, verbose bool) (c vfCase) {
+	var e1 vfE1
+	e1.Cfg[0] = vfSideCfg{IL: x.IL, TSN: x.TSN, RTOMax: x.RTOMax}
+	x.Opt.apply(&e1.Cfg[0])
+	lostInOutage := 0
+	pm := vfBubble(t, func() {
+		s := newVfSim(t, &e1, verbose)
+		ext := []byte{}
+		il := x.IL && !x.NoExt
+		hasID := false
+		for _, e := range x.Ext {
+			ext = append(ext, byte(e))
+			if e == wtIDATA {
+				hasID = true
+			}
+		}
+		il = il && hasID
+		p := newVfPuppet(s, 1, vfPuppetCfg{IL: il, TSN: 700, ARwnd: 1 << 20, Ext: ext, NoExt: x.NoExt})
+		defer func() {
+			if c.Verdict != "" || verbose {
+				c.Detail = s.history(300)
+			}
+			s.closeAll()
+		}()
+		if !p.connectAsServer(30 * time.Second) {
+			c.fail("puppet-handshake", "handshake with a peer listing extensions %v failed", x.Ext)
+			return
+		}
+		s.afterEstablished()
+		a := s.as[0]
+		base := time.Now()
+		deaf := func() bool {
+			el := int(time.Since(base).Milliseconds())
+			for _, d := range x.Deaf {
+				if el >= d[0] && el < d[0]+d[1] {
+					return true
+				}
+			}
+			return false
+		}
+		p.rcvCum = x.TSN - 1
+		nPk := 0
+		armed := false
+		p.onPacket = func(pk *wPacket) {
+			if !pk.has(wtDATA) && !pk.has(wtIDATA) {
+				return
+			}
+			if deaf() {
+				lostInOutage++
+				return
+			}
+			gapBefore := len(p.rcvSet) > 0
+			for i := range pk.Chunks {
+				if ch := &pk.Chunks[i]; ch.Type == wtDATA || ch.Type == wtIDATA {
+					p.modelRecv(ch.TSN)
+				}
+			}
+			nPk++
+			now := x.AckMode == 0 || gapBefore || len(p.rcvSet) > 0 || (x.AckMode == 1 && nPk%2 == 0)
+			if now {
+				p.sendSack()
+				return
+			}
+			if !armed {
+				armed = true
+				s.o.after(200*time.Millisecond, func() {
+					armed = false
+					if !deaf() {
+						p.sendSack()
+					}
+				})
+			}
+		}
+		total := 0
+		for i, w := range x.Writes {
+			w := w
+			total += w[2]
+			s.o.at(base.Add(time.Duration(w[0])*time.Millisecond+time.Duration(i)*time.Microsecond), func() { s.doWrite(0, uint16(w[1]), w[2], 53) })
+		}
+		heal := 0
+		for _, d := range x.Deaf {
+			if d[0]+d[1] > heal {
+				heal = d[0] + d[1]
+			}
+		}
+		if lw := x.Writes[len(x.Writes)-1][0]; lw > heal {
+			heal = lw
+		}
+		bound := time.Duration(heal)*time.Millisecond + 6*time.Duration(x.RTOMax)*time.Millisecond + 20*time.Second + time.Duration(total/1000)*300*time.Millisecond
+		s.o.run(func() bool {
+			return time.Since(base) > time.Duration(heal)*time.Millisecond && a.BufferedAmount() == 0
+		}, base.Add(bound))
+		if n := a.BufferedAmount(); n != 0 {
+			pk := vfPeekAssoc(a)
+			c.fail("stalled-not-delivered", "%v after the receiver listened again (it acknowledges everything it gets) the sender still reports %d buffered bytes: inflight=%d pending=%d cwnd=%d rwnd=%d T3 expiries=%d (peer extensions %v, noext=%v)", bound-time.Duration(heal)*time.Millisecond, n, pk.InflightN, pk.PendingN, pk.CWND, pk.RWND, pk.T3, x.Ext, x.NoExt)
+			return
+		}
+	})
+	if pm != "" && c.Verdict == "" {
+		c.fail("bubble-panic", "bubble: %s", pm)
+	}
+	pr := false
+	for _, e := range x.Ext {
+		if e == wtFWD || e == wtIFWD {
+			pr = true
+		}
+	}
+	if x.NoExt || !pr {
+		c.class("peer-without-forward-tsn")
+	}
+	if lostInOutage > 0 {
+		c.class("packets-lost-in-outage")
+	}
+	c.Nontrivial = lostInOutage > 0
+	return c
+}
+
 func TestVF_C02(t *testing.T) {
 	vfExplore(t, "C02", "heal", vfN(1600, 30000), genC02, func(x c02Scn) vfCase { return runC02(t, x, vfEnv.Replay != "") })
+	vfExplore(t, "C02", "foreign-receiver", vfN(1600, 30000), genC02Foreign, func(x c02Foreign) vfCase { return runC02Foreign(t, x, vfEnv.Replay != "") })
 	vfExplore(t, "C02", "wrapflood", vfN(48, 600), genFlood, func(f vfFlood) vfCase {
 		c := runC02(t, c02Scn{Sc: f.scenario()}, vfEnv.Replay != "")
 		w := vfWindowFor(f.RBuf)
